@@ -105,6 +105,9 @@ pub fn add_exec(a: &mut ExecStats, b: &ExecStats) {
     a.decoder_max_depth = a.decoder_max_depth.max(b.decoder_max_depth);
     a.multimap_subtrees_seen += b.multimap_subtrees_seen;
     a.ownership_audits += b.ownership_audits;
+    for (k, v) in b.probes.iter() {
+        *a.probes.entry(k.clone()).or_insert(0) += v;
+    }
 }
 
 pub fn add_disk(a: &mut crate::disk::Stats, b: &crate::disk::Stats) {
